@@ -10,8 +10,8 @@ from extract import ExtractionError
 
 GEN_PROJ = "prqlc/prqlc/src/sql/gen_projection.rs"
 
-LABELS = ["TE1", "TE2", "TE3"]
-FUNCTIONS = ["translate_exclude"]
+LABELS = ["TE1", "TE2", "TE3", "WX1", "WX2"]
+FUNCTIONS = ["translate_exclude", "wildcard_item"]
 RLIMIT = 60
 
 ASSUMED = [
@@ -20,9 +20,15 @@ ASSUMED = [
              "external function translate_names(): as many identifiers as excluded columns; HashSet<CId> is a shim with a ghost length; sqlparser's "
              "WildcardAdditionalOptions / ExcludeSelectItem / ExceptSelectItem are shims with the real field names; `..Default::default()` leaves the other options unset; "
              "Vec::remove(0) has its std meaning; the dialect's column_exclude() is an uninterpreted flag",
-     "keys": ["struct CidSet", "fn len", "fn translate_names", "fn column_exclude", "spec fn column_exclude_spec", "fn default_opts", "struct Handler"]},
+     "keys": ["struct CidSet", "fn len", "fn translate_names", "fn column_exclude", "spec fn column_exclude_spec", "fn default_opts", "spec fn dflt", "struct Handler"]},
+    {"what": "the star of translate_select_items: `Excluded` (HashMap<CId, HashSet<CId>>) is the shim ExMap with a ghost Map view (remove); in this slice translate_exclude is "
+             "called through translate_exclude_ext (uninterpreted texcl(): its own contract is TE1-3 above); translate_ident(.., Some(\"*\"), ..) returns at least the star; "
+             "sqlparser's SelectItem / ObjectName are shims with the real names; `.into_iter().map(ObjectNamePart::Identifier).collect()` is object_name_parts()",
+     "keys": ["struct ExMap", "fn view", "fn remove", "fn translate_exclude_ext", "spec fn texcl", "fn translate_ident", "fn object_name_parts", "fn star_string"]},
 ]
 TRUSTED = [
+    "oracle (C05, WX1-2): the exclusion list belongs to the star it was computed for, whatever form the star takes: `*` and `t.*` (which is what every star of a SELECT over "
+    "two or more tables looks like) both carry `EXCLUDE (..)` / `EXCEPT (..)` when columns have to be left out",
     "oracle (C05): a column the compiler generated for its own use (a row number carried through a CTE) or that was not selected never appears in the result: when a "
     "`*` of the projection would include such columns they are excluded - `* EXCLUDE (..)` / `* EXCEPT (..)` - for EVERY dialect, including those without such a clause "
     "(the property's quantifier names them)",
@@ -47,9 +53,44 @@ pub enum ExcludeSelectItem { Single(SqlIdent), Multiple(Vec<SqlIdent>) }
 pub struct ExceptSelectItem { pub first_element: SqlIdent, pub additional_elements: Vec<SqlIdent> }
 pub struct WildcardAdditionalOptions { pub opt_exclude: Option<ExcludeSelectItem>, pub opt_except: Option<ExceptSelectItem>, pub opt_rest: OpaqueT }
 #[verifier::external_body]
-pub fn default_opts() -> (r: WildcardAdditionalOptions) ensures r.opt_exclude is None, r.opt_except is None, { unimplemented!() }
+pub fn default_opts() -> (r: WildcardAdditionalOptions) ensures r.opt_exclude is None, r.opt_except is None, r == dflt(), { unimplemented!() }
+pub uninterp spec fn dflt() -> WildcardAdditionalOptions;
 #[verifier::external_body]
 pub fn translate_names(excluded: CidSet, ctx: &mut Context) -> (r: Vec<SqlIdent>) ensures r@.len() == excluded.len(), final(ctx).dialect == old(ctx).dialect, { unimplemented!() }
+"""
+
+
+WILD_SHIM = r"""
+pub type CId = usize;
+pub type Ident = OpaqueT;
+#[verifier::external_body] pub struct ExMap { _p: u8 }
+impl ExMap {
+    pub uninterp spec fn view(&self) -> Map<CId, CidSet>;
+    #[verifier::external_body]
+    pub fn remove(&mut self, k: &CId) -> (r: Option<CidSet>)
+        ensures final(self).view() == old(self).view().remove(*k),
+                match r { Some(v) => old(self).view().dom().contains(*k) && v == old(self).view()[*k], None => !old(self).view().dom().contains(*k) },
+    { unimplemented!() }
+}
+pub uninterp spec fn texcl(ex: CidSet, h: Handler) -> Option<WildcardAdditionalOptions>;
+#[verifier::external_body]
+pub fn translate_exclude_ext(ctx: &mut Context, excluded: CidSet) -> (r: Option<WildcardAdditionalOptions>)
+    ensures r == texcl(excluded, *old(ctx).dialect), final(ctx).dialect == old(ctx).dialect,
+{ unimplemented!() }
+#[verifier::external_body] pub fn star_string() -> String { unimplemented!() }
+#[verifier::external_body]
+pub fn translate_ident(table_name: Option<Ident>, column: Option<String>, ctx: &Context) -> (r: Vec<SqlIdent>) ensures r@.len() >= 1, { unimplemented!() }
+pub type ObjectNamePart = OpaqueT;
+pub struct ObjectName(pub Vec<ObjectNamePart>);
+#[verifier::external_body] pub fn object_name_parts(v: Vec<SqlIdent>) -> Vec<ObjectNamePart> { unimplemented!() }
+pub enum SelectItemQualifiedWildcardKind { ObjectName(ObjectName) }
+pub enum SelectItem { QualifiedWildcard(SelectItemQualifiedWildcardKind, WildcardAdditionalOptions), Wildcard(WildcardAdditionalOptions), Other(OpaqueT) }
+pub open spec fn opts_of(i: SelectItem) -> Option<WildcardAdditionalOptions> {
+    match i { SelectItem::QualifiedWildcard(_, o) => Some(o), SelectItem::Wildcard(o) => Some(o), SelectItem::Other(_) => None }
+}
+pub open spec fn expected_opts(ex: Map<CId, CidSet>, cid: CId, h: Handler) -> WildcardAdditionalOptions {
+    if ex.dom().contains(cid) && texcl(ex[cid], h) is Some { texcl(ex[cid], h)->0 } else { dflt() }
+}
 """
 
 
@@ -78,7 +119,34 @@ def build(X):
             (r is Some && column_exclude_spec(*old(ctx).dialect) == Some(ColumnExclude::Except)) ==> (r->0.opt_except is Some
                 && r->0.opt_except->0.additional_elements@.len() + 1 == excluded.len() && r->0.opt_exclude is None), // @TE3
     """)
-    return PRELUDE + te.text + "\n} // verus!\nfn main() {}\n"
+    # ---- the star of translate_select_items: which options it carries
+    tsi = X.fn(GEN_PROJ, "translate_select_items")
+    mw = re.search(r"let table_name = t\.table_ref\.name\.clone\(\)\.map\(Ident::from_name\);", tsi.text)
+    mc = re.search(r"\.map\(\|cid\| \{", tsi.text)
+    if not (mw and mc):
+        raise ExtractionError("translate_select_items: the wildcard case of the closure over the columns is not where the unit expects it")
+    from extract import code_tokens, match_brace
+    toks = code_tokens(tsi.text)
+    kc = next(i for i, t in enumerate(toks) if t[1] == mc.end() - 1)
+    ce = toks[match_brace(tsi.text, toks, kc)][1]
+    tsi.name = "wildcard_item"
+    tsi.text = tsi.text[mw.end():ce].strip()
+    tsi.rewrites.append({"rule": "slice", "what": "the wildcard case of the closure `|cid| { .. }` of translate_select_items, from behind `let table_name = ..;` to the end of the closure, wrapped as "
+                         "fn wildcard_item(table_name, cid, excluded, ctx)"})
+    tsi.rewrite_re("R5", r"Some\(\"\*\"\.to_string\(\)\)", "Some(star_string())", count=None, why="the star as a String")
+    tsi.rewrite_re("R5", r"\btranslate_exclude\(ctx, (\w+)\)", r"translate_exclude_ext(ctx, \1)", count=None, why="translate_exclude through its uninterpreted result (its contract is TE1-3)")
+    tsi.desugar_option_closures()
+    tsi.rewrite_re("R5", r"\)\s*\.unwrap_or_default\(\)", ").unwrap_or(default_opts())", count=None, why="Option::unwrap_or_default for WildcardAdditionalOptions")
+    tsi.rewrite_re("R5", r"\bDefault::default\(\)", "default_opts()", count=None, why="Default::default() for WildcardAdditionalOptions")
+    tsi.rewrite_re("R5", r"(\w+)\s*\.into_iter\(\)\s*\.map\(sqlparser::ast::ObjectNamePart::Identifier\)\s*\.collect\(\)", r"object_name_parts(\1)", count=None, why="iterator chain: identifiers as object name parts")
+    tsi.rewrite_re("R6", r"\bsqlparser::ast::SelectItemQualifiedWildcardKind\b", "SelectItemQualifiedWildcardKind", count=None, why="module path")
+    tsi.text = ("pub fn wildcard_item(table_name: Option<Ident>, cid: CId, excluded: &mut ExMap, ctx: &mut Context) -> (r: Result<SelectItem, Error>)\n"
+                "    ensures\n"
+                "        // C05: the star - qualified or not - carries the exclusion computed for it\n"
+                "        r is Ok ==> opts_of(r->Ok_0) == Some(expected_opts(old(excluded).view(), cid, *old(ctx).dialect)), // @WX1\n"
+                "        r is Ok, // @WX2\n"
+                "{\n    " + tsi.text + "\n}\n")
+    return PRELUDE + te.text + "\n" + WILD_SHIM + tsi.text + "\n} // verus!\nfn main() {}\n"
 
 
 # ----------------------------------------------------------------------------- replay on the real compiler + SQLite
@@ -115,7 +183,26 @@ def sweep():
     return [_try("sql.sqlite"), _try("sql.duckdb")]
 
 
+# a star over one of two joined tables: it is printed as `t.*` and must carry the exclusion
+QUALIFIED = [("from a\njoin b (==id)\nselect !{b.id}\n", "sql.duckdb", "b.* EXCLUDE (id)"), ("from a\njoin side:left b (==id)\nselect !{a.x, b.w}\n", "sql.duckdb", "a.* EXCLUDE (x)"),
+             ("from a\njoin b (==id)\nselect !{b.id}\n", "sql.bigquery", "b.* EXCEPT (id)")]
+
+
+def _try_text(src, target, needle):
+    import replaylib
+    ok, sql = replaylib.compile_prql(src, target)
+    flat = " ".join(sql.split())
+    return {"obligation": "star_exclude.WX1", "input": src + "# target " + target, "expected": "SQL containing `%s`" % needle, "observed": flat[:300],
+            "failing": (not ok and sql.startswith("PANIC")) or (ok and needle not in flat), "replay_kind": "text", "src": src, "target": target, "needle": needle}
+
+
 def replay(failure):
+    if ".WX" in failure.get("obligation", ""):
+        for src, target, needle in QUALIFIED:
+            r = _try_text(src, target, needle)
+            if r["failing"]:
+                return r
+        return {"failing": False}
     for r in sweep():
         if r["failing"]:
             return r
@@ -123,4 +210,6 @@ def replay(failure):
 
 
 def rerun(doc):
+    if doc.get("replay_kind") == "text":
+        return _try_text(doc["src"], doc["target"], doc["needle"])
     return _try(doc["target"])
